@@ -339,14 +339,17 @@ async def part_connectors(out, args, rng, wd, origin):
         B = Proxy(args.bin, base_cfg(ls, [{"name": "direct"}], [{"target": "direct"}], metrics_port=p["api"]), "U" + flavour, wd)
         procs.append(B)
         ups[flavour] = p
-    combos = list(itertools.product(("http", "socks", "quic"), (False, True), ("right", "foreign", "absent"), ("valid", "foreign", "wrongname")))
+    combos = [c + ("localhost",) for c in itertools.product(("http", "socks", "quic"), (False, True), ("right", "foreign", "absent"), ("valid", "foreign", "wrongname"))]
+    # the upstream named by ADDRESS (as the shipped sample configuration does): a certificate issued for some name never verifies
+    # for an address, whatever CA signed it
+    combos += [c + ("127.0.0.1",) for c in itertools.product(("http", "socks"), (False,), ("right", "foreign"), ("valid", "foreign", "wrongname"))]
     connectors, rules = [], []
-    for i, (kind, insecure, ca, flavour) in enumerate(combos):
+    for i, (kind, insecure, ca, flavour, server) in enumerate(combos):
         name = "c%d" % i
         caname = {"right": "ca", "foreign": "foreign-ca", "absent": None}[ca]
         tls = tls_client(ca=caname, insecure=insecure)
         port = ups[flavour][{"http": "https", "socks": "sockstls", "quic": "quic"}[kind]]
-        c = {"name": name, "type": kind, "server": "localhost", "port": port, "tls": tls}
+        c = {"name": name, "type": kind, "server": server, "port": port, "tls": tls}
         if kind == "quic":
             c["bind"] = "127.0.0.1:0"
         connectors.append(c)
@@ -368,7 +371,7 @@ async def part_connectors(out, args, rng, wd, origin):
             await p.start()
 
         async def one(i, combo):
-            kind, insecure, ca, flavour = combo
+            kind, insecure, ca, flavour, server = combo
             out.case()
             established = False
             try:
@@ -380,10 +383,10 @@ async def part_connectors(out, args, rng, wd, origin):
                 c.close()
             except Exception:
                 pass
-            out.nontrivial(("connector", kind, insecure, ca, flavour, established))
+            out.nontrivial(("connector", kind, insecure, ca, flavour, established, server))
             # acceptable = chains to the CONFIGURED CA and is issued for the configured server name
-            legit = (ca == "right" and flavour == "valid") or (ca == "foreign" and flavour == "foreign")
-            w = {"connector": kind, "insecure": insecure, "ca": ca, "upstream_certificate": flavour}
+            legit = ((ca == "right" and flavour == "valid") or (ca == "foreign" and flavour == "foreign")) and server == "localhost"
+            w = {"connector": kind, "insecure": insecure, "ca": ca, "upstream_certificate": flavour, "server_configured_as": server}
             if not insecure and established and not legit:
                 out.violation("tunnel established through an upstream whose certificate does not verify (%s connector)" % kind, w)
             if established is False and (legit or insecure):
@@ -400,7 +403,7 @@ async def part_connectors(out, args, rng, wd, origin):
 
 
 async def main(args):
-    out = Out("C07", "c07", "SOCKS5: every offered-method set x continuation x credential class against a credentials-required listener (user list + external command + verdict cache), SOCKS4 ids, argv log of the command, cache histories (right/wrong/right, revocation before and after expiry, concurrent first attempts); TLS client certificates: listener {http, socks, quic} x policy {absent, optional, required} x presented {none, valid, foreign}; connector verification: {http, socks, quic} x insecure x CA {right, foreign, absent} x upstream cert {valid, foreign, wrong name}. distinct = distinct attempt descriptors")
+    out = Out("C07", "c07", "SOCKS5: every offered-method set x continuation x credential class against a credentials-required listener (user list + external command + verdict cache), SOCKS4 ids, argv log of the command, cache histories (right/wrong/right, revocation before and after expiry, concurrent first attempts); TLS client certificates: listener {http, socks, quic} x policy {absent, optional, required} x presented {none, valid, foreign}; connector verification: {http, socks, quic} x insecure x CA {right, foreign, absent} x upstream cert {valid, foreign, wrong name} x server given as name or as address. distinct = distinct attempt descriptors")
     rng = random.Random(args.seed)
     wd = workdir("c07")
     origin = await TcpOrigin(echo_handler, host="127.0.0.1").start()
